@@ -91,6 +91,35 @@ def rootFromProof (p : Proof) (k v : Nat) : Option Nat :=
 def verify (root : Nat) (p : Proof) (k v : Nat) : Bool :=
   rootFromProof P p k v = some root
 
+/-! hash-annotated trees: the same proof generation with every subtree hash computed once (used by the driver;
+    `genProofH_eq` in Gsp.Lemmas.Smt shows it is the same function) -/
+inductive TH where
+  | empty
+  | leaf (k v : Nat)
+  | mid (h : Nat) (l r : TH)
+
+def TH.hash : TH → Nat
+  | .empty => 0
+  | .leaf k v => P [k, v, 1]
+  | .mid h _ _ => h
+
+def annotate : T → TH
+  | .empty => .empty
+  | .leaf k v => .leaf k v
+  | .mid l r =>
+    let l' := annotate l
+    let r' := annotate r
+    .mid (P [TH.hash P l', TH.hash P r']) l' r'
+
+def genProofH (k : Nat) : TH → (lvl fuel : Nat) → List Nat → Except Err Proof
+  | _, _, 0, _ => .error .notFound
+  | .empty, _, _+1, sibs => .ok ⟨false, sibs.reverse, none⟩
+  | .leaf k' v', _, _+1, sibs =>
+    if k' = k then .ok ⟨true, sibs.reverse, none⟩ else .ok ⟨false, sibs.reverse, some (k', v')⟩
+  | .mid _ l r, lvl, fuel+1, sibs =>
+    if bit k lvl then genProofH k r (lvl+1) fuel (TH.hash P l :: sibs)
+    else genProofH k l (lvl+1) fuel (TH.hash P r :: sibs)
+
 end
 
 def lookup (k : Nat) : T → Nat → Option Nat
